@@ -408,7 +408,7 @@ def run_check(pid, tier):
 
 def finish(pid, tier, seed, jobs, classes_info, t_start, deadline, extra_cov=None):
     failures = []  # dicts: kind, config, subject, op, count, fp, witness, job
-    stats_total = {"evals": 0, "distinct": 0, "nontrivial": 0, "ops": 0, "subjects": set()}
+    stats_total = {"evals": 0, "distinct": 0, "nontrivial": 0, "ops": 0, "subjects": set(), "bfs_states": 0, "bfs_transitions": 0}
     samples = []
     mxcsr = []
     skipped = 0
@@ -430,6 +430,8 @@ def finish(pid, tier, seed, jobs, classes_info, t_start, deadline, extra_cov=Non
                              "witness": {"exit": j.run_rc, "log": j.run_log[-1500:]}})
             continue
         res = j.result
+        stats_total["bfs_states"] += int(res.get("bfs_states", 0) or 0)
+        stats_total["bfs_transitions"] += int(res.get("bfs_transitions", 0) or 0)
         per_job.append({"config": j.cfg.name, "tu": j.tu, "part": j.part, "members": [m.name for m in j.members],
                         "build_s": round(j.build_s, 1), "run_s": round(j.run_s, 1), "ops": len(res["stats"])})
         for n in res.get("notes", []):
@@ -535,9 +537,16 @@ def finish(pid, tier, seed, jobs, classes_info, t_start, deadline, extra_cov=Non
         stats_total["nontrivial"] = max(stats_total["nontrivial"], extra_cov["states_override"])
         if not samples:
             samples.append({"configuration": jobs[0].cfg.name, "command": " ".join(jobs[0].compile_cmd("OUT"))[:600]})
+    if stats_total["bfs_states"]:
+        # state explorers report their own search statistics: distinct representations / histories and executed transitions
+        st_states, st_trans = stats_total["bfs_states"], stats_total["bfs_transitions"]
+    elif extra_cov and extra_cov.get("states_override"):
+        st_states, st_trans = extra_cov["states_override"], stats_total["evals"]
+    else:
+        st_states, st_trans = stats_total["distinct"], stats_total["evals"]
     cov = {
-        "states": stats_total["distinct"],
-        "transitions": stats_total["evals"],
+        "states": st_states,
+        "transitions": st_trans,
         "traces_validated_against_impl": stats_total["evals"],
         "evaluations": stats_total["evals"],
         "distinct_nontrivial": stats_total["nontrivial"],
